@@ -288,7 +288,7 @@ fn reversible_moves(p: &Pos) -> Vec<RMove> {
 }
 
 /// Appends plies to (moves, pos): random moves and shuffle cycles that revisit positions.
-fn gen_history(rng: &mut Rng, start: &Pos) -> Vec<RMove> {
+pub fn gen_history(rng: &mut Rng, start: &Pos) -> Vec<RMove> {
     let mut pos = start.clone();
     let mut moves: Vec<RMove> = vec![];
     // one history in eight is long (up to ~400 plies): repetitions whose earlier
